@@ -38,6 +38,14 @@ async def explore(tier, seed):
             mdl = sg.model()
             if nonintro: mdl["sdl_extra"] = list(mdl.get("sdl_extra", [])) + ["extend schema @nonIntrospectable"]
             return mdl
+        # on every other schema the engines enrich their errors IN PLACE (the documented use of an error coercer) with a
+        # message-specific key: what is written for one request may not show up in the errors of a later one
+        async def stamping(exception, error):
+            key = "m-" + hashlib.sha256(str(error.get("message")).encode()).hexdigest()[:6]
+            if isinstance(error.get("extensions"), dict): error["extensions"][key] = 1
+            else: error["extensions"] = {key: 1}
+            return error
+        ckw = {"error_coercer": stamping} if si % 2 == 1 else {}
         pool = []
         for _ in range(6):
             dg = DocGen(sg, rng, op_kinds=("query", "mutation") if sg.mutation else ("query",))
@@ -68,6 +76,15 @@ async def explore(tier, seed):
                 for q2 in (Catalogue(sg, rng).m_fragment_cycle(q) or [])[:4]: pool.append(("cyclic", q2, ops[0][1], None))
             except Exception:
                 pass
+        # the SAME fragment name with another type condition in another document (names are local to a document)
+        from gen import base as _b, is_nn as _nn
+        for f_ in sg.query["fields"]:
+            tb = _b(f_["type"])
+            if tb in sg.iface_names + sg.union_names and len(sg.possible(tb)) >= 2 and not any(_nn(a["type"]) and not a.get("default") for a in f_["args"]):
+                for cond in list(sg.possible(tb))[:3] + [tb]:
+                    pool.append(("frag-retarget", f"{{ {f_['name']} {{ ...Fz }} }}\nfragment Fz on {cond} {{ __typename }}", None, None))
+                    pool.append(("frag-retarget", f"{{ {f_['name']} {{ __typename ... on {cond} {{ ...Fz }} }} }}\nfragment Fz on {cond} {{ k: __typename }}", None, None))
+                break
         pool.append(("junk", "", None, None)); pool.append(("junk", "{", None, None))
         # introspection selections under different response keys / positions (refused as a field error when the schema forbids it)
         for q_ in ("{ a: __schema { queryType { name } } }", '{ __typename b: __type(name: "T") { name } }', '{ c: __type(name: "Query") { name } d: __schema { queryType { name } } }'):
@@ -88,7 +105,7 @@ async def explore(tier, seed):
                 res = {}
                 for k_ in od:
                     kind, q, opn, variables = uniq[k_]
-                    ref = await er.build_engine(model_(), renv, engine_kwargs={"query_cache_decorator": None})
+                    ref = await er.build_engine(model_(), renv, engine_kwargs={"query_cache_decorator": None, **ckw})
                     try:
                         res[k_] = canon(await ref.engine.execute(q, operation_name=opn, variables=variables))
                     except Exception as e:
@@ -104,6 +121,7 @@ async def explore(tier, seed):
             for cname, kw in (CONFIGS if tier != "quick" else rng.sample(CONFIGS, 3)):
                 kw = dict(kw)
                 if cname.startswith("lru-"): kw["query_cache_decorator"] = lru_cache(maxsize=int(cname[4:]))
+                kw.update(ckw)
                 b = await er.build_engine(model_(), renv, engine_kwargs=kw)
                 stats["histories"] += 1
                 for i, (kind, q, opn, variables) in enumerate(hist):
